@@ -27,9 +27,13 @@ def sh(cmd, **kw):
 def main():
     src, k, sid, target = sys.argv[1:5]
     extra = sys.argv[5:]
-    patch = os.path.join(src, "patch%s.diff" % k)
-    demo = os.path.join(src, "demo%s_test.go" % k)
-    notes = os.path.join(src, "notes%s.md" % k)
+    if k == "-":
+        # a change already kept under seeded/<id>/
+        patch, demo, notes = (os.path.join(src, n) for n in ("patch.diff", "demo_test.go", "notes.md"))
+    else:
+        patch = os.path.join(src, "patch%s.diff" % k)
+        demo = os.path.join(src, "demo%s_test.go" % k)
+        notes = os.path.join(src, "notes%s.md" % k)
     d = tempfile.mkdtemp(prefix="seedwt.", dir="/tmp")
     os.rmdir(d)
     r = sh(["git", "-C", "/repo", "worktree", "add", "-q", "--detach", d, "HEAD"])
@@ -95,14 +99,19 @@ def main():
         meta["checks"] = results
         ok = all(meta.get(x) for x in ("demo_passes_on_clean_tree", "patch_applies", "builds", "existing_tests_pass_with_patch", "demo_fails_with_patch"))
         meta["confirmed"] = ok
-        out = os.path.join(ROOT, "seeded", sid)
+        out = os.path.join(os.environ.get("SEED_OUT", os.path.join(ROOT, "seeded")), sid)
         if ok:
             os.makedirs(out, exist_ok=True)
-            shutil.copy(patch, os.path.join(out, "patch.diff"))
-            shutil.copy(demo, os.path.join(out, "demo_test.go"))
-            if os.path.exists(notes):
-                shutil.copy(notes, os.path.join(out, "notes.md"))
-                meta["needs"] = "see notes.md (written by the sub-agent)"
+            old = {}
+            if os.path.exists(os.path.join(out, "meta.json")):
+                old = json.load(open(os.path.join(out, "meta.json")))
+            for name, srcf in (("patch.diff", patch), ("demo_test.go", demo), ("notes.md", notes)):
+                if os.path.exists(srcf) and os.path.abspath(srcf) != os.path.abspath(os.path.join(out, name)):
+                    shutil.copy(srcf, os.path.join(out, name))
+            meta["needs"] = old.get("needs", "see notes.md (written by the sub-agent)")
+            for key in ("source", "breaks", "other_property"):
+                if key in old:
+                    meta[key] = old[key]
             json.dump(meta, open(os.path.join(out, "meta.json"), "w"), indent=1)
         print(json.dumps({k2: v for k2, v in meta.items() if k2 not in ("demo_output_with_patch", "check_output", "ran")}))
     finally:
